@@ -408,6 +408,9 @@ def run(ctx: core.Ctx):
     kh = kill_histories(ctx)
     if kh and witness is None:
         witness = dict(kind="kill-with-history", problems=kh[:4])
+    rsw = core.realsock_witness(core.realsock(ctx, ["kill_after_reset"]))     # KILL CONNECTION of a target whose client has reset the connection
+    if rsw and witness is None:
+        witness = rsw
     if witness is not None:
         core.report_violation(ctx, "a kill does more (or less) than the property allows", witness)
     if (not pr["ok"] or disagreements) and not ctx.violations:
